@@ -174,6 +174,7 @@ def control_program(draw):
                     draw(st.sampled_from([0, 0, None, [1, 0], [2, 0.5]]))])
     for i in range(nc):
         body = [['wait', 0.0625]]
+        elapsed = 0.0625
         for _ in range(draw(st.integers(1, 8))):
             k = draw(st.integers(0, 11))
             tgt = draw(st.sampled_from(targets))
@@ -186,6 +187,13 @@ def control_program(draw):
             elif k <= 8 and nclocks:
                 body.append(['tempo', draw(st.integers(0, nclocks - 1)),
                              draw(st.sampled_from([0.5, 1, 2, 4]))])
+            elif k == 9 and nclocks and elapsed > 1.0625:
+                # the clock's beats jump (forward: sleepers left behind are
+                # performed at once, with a logical time up to 1 s in the
+                # past - hence not near the program start, where NRT time
+                # would become negative; backward: they wait longer)
+                body.append(['beats_add', draw(st.integers(0, nclocks - 1)),
+                             draw(st.sampled_from([0.25, 0.5, -0.5]))])
             elif k == 9:
                 c = draw(st.integers(0, 1))
                 body.append(['ctest', c, True])
@@ -196,8 +204,9 @@ def control_program(draw):
             else:
                 body.append(['cunhang', draw(st.integers(0, 1))])
             body.append(['log', nxt()])
-            body.append(['wait', draw(st.sampled_from(
-                [0.125, 0.125, 0.25, 0.375, 0.5, 1]))])
+            w = draw(st.sampled_from([0.125, 0.125, 0.25, 0.375, 0.5, 1]))
+            elapsed += w
+            body.append(['wait', w])
         routines[f'c{i}'] = {'body': body}
         top.append(['play', f'c{i}', 'sys', 0])
     return {'clocks': clocks, 'routines': routines, 'top': top, 'tail': 0,
